@@ -769,7 +769,7 @@ var mul64 = []*instructionType{
 		immediate:    immTypeR,
 		effects: func(i instruction) []expr.Effect {
 			r1, r2 := regLoad(rs1, i, width64), regLoad(rs2, i, width64)
-			val := exprtools.SignedMod(r1, r2, width64)
+			val := signedRem(r1, r2, width64)
 			return []expr.Effect{regStore(val, i, width64)}
 		},
 	}, {
@@ -825,7 +825,7 @@ var mul64 = []*instructionType{
 		immediate:    immTypeR,
 		effects: func(i instruction) []expr.Effect {
 			r1, r2 := regLoad(rs1, i, width32), regLoad(rs2, i, width32)
-			val := sext32To64(exprtools.SignedMod(r1, r2, width32))
+			val := sext32To64(signedRem(r1, r2, width32))
 			return []expr.Effect{regStore(val, i, width64)}
 		},
 	}, {
